@@ -211,7 +211,7 @@ def tier_a(run):
     """engine A (ast -> z3 on the real source): (1) calc_rdm hands a single dataset to the cross-validated estimator of the
     method with EXACTLY the caller's options (descriptor, precision, fold descriptor, remove_mean resp. the poisson prior: any
     value, also 0 / None / False); (2) the callee contract of the fold selection -- Dataset.subset_obs selects by
-    descriptor_utils.bool_index -- is discharged in this run too: a flag is set exactly where the descriptor has a requested
+    descriptor_utils.bool_index / num_index -- is discharged in this run too: a flag is set exactly where the descriptor has a requested
     value, for all descriptor columns and value lists (the same contract C10 generates)."""
     import z3
     from contracts.common import new_engine, finish_engine, install_dataset
@@ -240,7 +240,7 @@ def tier_a(run):
                 ck.ensure_eq('post/dispatch-with-exactly-the-callers-options', p.value, want)
             ck.execute(mk, post=post, allow_raise=lambda *a: None)
             fails += ck.failed
-    for ck in check_selection_helpers(run, E, pid='C02', fns=('bool_index',), gathers=False):
+    for ck in check_selection_helpers(run, E, pid='C02', fns=('bool_index', 'num_index'), gathers=False):
         fails += ck.failed
     finish_engine(E, run)
     return fails
